@@ -50,6 +50,8 @@ int verif_caught;   /* class of the exception most recently caught */
 
 #define VERIF_MAXLEN 100000
 #define VERIF_ABS(x) ((x) < 0 ? -(x) : (x))
+#define VERIF_MAX(a, b) ((a) < (b) ? (b) : (a))   /* std::max: the first argument unless it is less than the second */
+#define VERIF_MIN(a, b) ((b) < (a) ? (b) : (a))
 
 /* std::copy_n / fill_n on raw char ranges: assumed contracts (C++ standard), used via --replace-call-with-contract
    or, in unwind-mode pipelines, through these simple bodies */
